@@ -39,6 +39,7 @@ def ipm_convert(tool, a, b, fa, fb, nrec, shapes=None, maxvar=300):
 
         def rp():
             return {'kind': 'ipm', 'args': {'tool': tool, 'a': a, 'b': b, 'fa': fa, 'fb': fb, 'msgs': [msg_witness(mm, ee, ev) for mm, ee in recs]}}
+        core.set_fallback(rp, 'C19/concretised')
         src = RopeFile()
         w = m.mciipm.IpmWriter(src, encoding=a, blocked=fa)
         for msg, _ in recs:
@@ -92,6 +93,7 @@ def param_convert(tool, a, b, fa, fb, nrec, plen=800):
         def rp():
             return {'kind': 'param', 'args': {'tool': tool, 'a': a, 'b': b, 'fa': fa, 'fb': fb, 'lens': [ev(n) for n in ns],
                                              'texts': [concretize(t, ev) for t in texts]}}
+        core.set_fallback(rp, 'C19/concretised')
         src = RopeFile()
         w = m.mciipm.VbsWriter(src, blocked=fa)
         for t in texts:
